@@ -133,6 +133,9 @@ def eval_C15(item):
             continue
         if not np.array_equal(a2, before, equal_nan=True) if a2.dtype.kind == 'f' else not np.array_equal(a2, before):
             res['pred'].append('variant %s: compute modified its input array' % name)
+        if a2.flags.writeable != arr.flags.writeable or a2.dtype != arr.dtype or a2.strides != arr.strides:
+            res['pred'].append('variant %s: compute changed its input array object (writeable %r -> %r, dtype %s -> %s)'
+                               % (name, arr.flags.writeable, a2.flags.writeable, arr.dtype, a2.dtype))
         if full_view(o2) != base:
             diff = 'newick %r vs %r' % (o2['newick'], st.iobs['newick']) if o2['newick'] != st.iobs['newick'] else 'structures / label map differ'
             msg = 'variant %s gives a different dendrogram than the original call (%s): %s' % (name, case['dtype'], diff)
@@ -156,6 +159,37 @@ def eval_C15(item):
                 res['tags'].append('K4')
             else:
                 res['pred'].append(msg)
+    # fault path: a compute on the SAME array object that fails part-way (a user criterion or neighbours function raises)
+    # must leave the array as it was, and a subsequent compute on it must give the original result
+    import random
+    rr = random.Random(item.get('pseed', 0))
+    for mode in ('crit', 'nbrs'):
+        c2 = dict(case)
+        c2['reuse'] = False
+        try:
+            arr = impl.make_array(c2)
+            before = np.array(arr, copy=True)
+            flags0 = (arr.flags.writeable, arr.dtype, arr.strides)
+            try:
+                impl.compute_impl(c2, arr=arr, fail=(mode, rr.randint(0, 6)))
+                failed = False
+            except impl.Injected:
+                failed = True
+            if (arr.flags.writeable, arr.dtype, arr.strides) != flags0:
+                res['pred'].append('a compute that failed inside a user %s left the input array changed: writeable %r -> %r'
+                                   % ('criterion' if mode == 'crit' else 'neighbours function', flags0[0], arr.flags.writeable))
+            if not np.array_equal(arr, before, equal_nan=True) if arr.dtype.kind == 'f' else not np.array_equal(arr, before):
+                res['pred'].append('a compute that failed inside a user callback modified the input array')
+            d3, a3 = impl.compute_impl(c2, arr=arr)
+            if impl.forest_wellformed(d3):
+                res['pred'].append('after-failed-compute: %s' % impl.forest_wellformed(d3)[0])
+            elif full_view(impl.observe(d3, c2)) != base:
+                res['pred'].append('computing again on the same array after a failed compute gives a different dendrogram')
+            res['tags'].append('failed-compute:%s' % ('raised' if failed else 'not-reached'))
+        except impl.Injected:
+            pass
+        except Exception as e:
+            res['pred'].append('after-failed-compute raised %s: %s' % (type(e).__name__, str(e)[:100]))
     res['tags'].append('variants=%d' % len(variants))
     return res
 
@@ -271,12 +305,17 @@ def transform_case(case, tr, rng_params):
         c2['crits'] = []
     if 'seeds' in [c[0] for c in c2.get('crits', [])]:
         c2['crits'] = [[c[0], sorted(sigma[p] for p in c[1])] if c[0] == 'seeds' else c for c in c2['crits']]
+    if not str(case.get('dtype', 'float64')).startswith('float'):
+        # integer base image: the transformed image stays an integer image where it can (wide enough for the value maps)
+        c2['dtype'] = 'int64' if c2['fb'] == 0 and all(x is not None and abs(x) < 2 ** 62 for x in c2['k']) else 'float64'
     return c2, sigma
 
 
 def gen_item_C16(rng, idx, tier):
     case = gen.gen_compute_case(rng, maxpix=36 if tier == 'quick' else 60)
-    case['dtype'] = 'float64'
+    if case['dtype'].startswith('float') or case['fb'] != 0 or any(x is None for x in case['k']) or case.get('inf') \
+            or case['dtype'].startswith('uint'):
+        case['dtype'] = 'float64'        # otherwise: an integer image (signed, any width)
     case['layout'] = 'C'
     if case['minv'] != 'min' and case['minv'][1] == 2 ** 40:
         # gen's float32 special (a threshold 2**-40 below a data value): the value maps below add offsets of up to
@@ -323,6 +362,7 @@ def gen_item_C16(rng, idx, tier):
         case['k'] = [None if x is None else int(Fraction(float(1 + rng.randint(0, 9) / 10.0 + rng.choice([0, 0, 0.05]))) * 2 ** 60)
                      for x in case['k']]
         case['fb'] = 60
+        case['dtype'] = 'float64'
         case['kind'] = 'decimal'
         case['mind'] = int(Fraction(float(rng.choice([0.1, 0.2, 0.3, 0.05]))) * 2 ** 60) if rng.random() < 0.8 else 0
         case['minv'] = rng.choice([[0, 1], [2 ** 60, 1]])
